@@ -186,13 +186,21 @@ class Ctx(object):
             global _POOL_ARGS
             _POOL_ARGS = (self, fn, chunks)
             mp = multiprocessing.get_context('fork')
-            with mp.Pool(min(jobs, len(chunks))) as pool:
+            with mp.Pool(min(jobs, len(chunks)), initializer=_worker_init) as pool:
+                failure = None
                 for i, part, res in pool.imap_unordered(_run_chunk_idx,
                                                         range(len(chunks))):
                     if isinstance(part, str):
-                        raise HarnessError('worker failed:\n' + part)
+                        failure = failure or part
+                        continue
                     self.merge(part)
                     results[i] = res
+                # let the workers leave through the queue sentinel; terminate() at __exit__
+                # can lose its SIGTERM under load (worker blocked in sem_wait) and then joins forever
+                pool.close()
+                pool.join()
+                if failure:
+                    raise HarnessError('worker failed:\n' + failure)
         out = []
         for r in results:
             out.extend(r)
@@ -200,6 +208,11 @@ class Ctx(object):
 
 
 _POOL_ARGS = None
+
+
+def _worker_init():
+    # workers must die on SIGTERM (the parent's scratch-cleanup handler is inherited otherwise)
+    signal.signal(signal.SIGTERM, signal.SIG_DFL)
 
 
 def _run_chunk_idx(i):
